@@ -32,7 +32,7 @@ def main():
         ctx.proof_break("lake build Qco.Properties.%s" % pid, tail(out_prop))
 
     # 3. audit
-    thms, discharged, details, checker_cmd, audit_err = ([], [], {}, "", "")
+    thms, discharged, details, checker_cmd, audit_err = (C.property_theorems(pid), [], {}, "", "")
     if ok_prop:
         thms, discharged, details, checker_cmd, audit_err = C.audit(pid)
         bad = [t for t in thms if t not in discharged]
